@@ -1,18 +1,181 @@
 /-
   C11 — RFC 2822 output round-trips and obsolete forms are read as specified.
-  (stage 1: model glue + correspondence; the property theorems follow)
+  Property statements only.  Specification: Spec/Rfc2822Spec.lean (the grammar relation `Rfc2822 s f`,
+  `Valid`, `Denotes`, `stdText`); helper lemmas: Proofs/Rfc2822L.lean (scanning primitives),
+  Proofs/Rfc2822ScanL.lean (the reader stage by stage), Proofs/Rfc2822ResL.lean (field resolution,
+  on top of C14's completeness lemmas and C04's `from_local_spec`).
+  Model: `Rfc2822.parse_from_rfc2822` = `DateTime::parse_from_rfc2822`, `Rfc2822.to_rfc2822` =
+  `DateTime::to_rfc2822` (Model/Rfc2822.lean over Model/Parse, Scan, ParsedResolve, Format).
 -/
-import Chrono.Model.Rfc2822
+import Chrono.Proofs.Rfc2822ResL
 
 namespace Chrono.Props.C11
-open Chrono Chrono.M
+open Chrono Chrono.M Chrono.Spec Chrono.Spec.Rfc2822 Chrono.Proofs.Rfc2822
 
-/-- the fields of the rustdoc example `Tue, 1 Jul 2003 10:52:37 +0200` resolve to that instant -/
-theorem doc_example_fields :
-    Rfc2822.okVal (Parsed.to_datetime
-      { year := some 2003, month := some 7, day := some 1, hour_div_12 := some 0,
-        hour_mod_12 := some 10, minute := some 52, second := some 37, offset := some 7200,
-        weekday := some .tue })
-      = some ⟨⟨⟨16411497⟩, ⟨31957, 0⟩⟩, 7200⟩ := by decide +kernel
+/-! ## the reader accepts the grammar and returns exactly the denoted value -/
+
+/-- `parse` with the single item `RFC2822` on a string of the grammar: the scanner consumes all of
+it and yields exactly the spelled fields (`parsedOf f`) -/
+theorem scanner_complete (s : List Nat) (f : Fields) (h : Rfc2822 s f) (hr : SetterRanges f) :
+    Parse.parse Parsed.new s Rfc2822.ITEMS = .ok (parsedOf f) := by
+  have := parse_rfc2822_complete s f h hr
+  unfold Parse.parse Rfc2822.ITEMS Parse.parse_internal
+  simp only [this, Parse.parse_internal]
+
+theorem setterRanges_of_valid (f : Fields) (hv : Valid f) : SetterRanges f := by
+  obtain ⟨v1, v2, v3, _, v5, v6, v7, v8, _⟩ := hv
+  have hb := Chrono.Proofs.valid_bounds f.year f.month f.day v3
+  have hd1 : 1 ≤ f.day := by
+    unfold validYmd at v3
+    simp only [Bool.and_eq_true, decide_eq_true_eq] at v3
+    exact v3.1.2
+  have hMAX : Extracted.MAX_YEAR = 262142 := rfl
+  unfold OffValid at v8
+  exact ⟨hd1, hb.2, by omega, v5, v6, v7, by omega, by omega⟩
+
+/-- **reader_accepts_spec** (completeness over the grammar).  Every string of the RFC 2822 date-time
+syntax (optional day-name, one- or two-digit day, month name in any case, 2/3/4+-digit year,
+optional seconds, `1*S` wherever the standard form has a space, numeric / named / military zone,
+trailing comments with nesting and escapes) whose fields are valid parses — no error, no panic —
+to a value that denotes exactly those fields: that offset, the instant `wall clock − offset`,
+whole seconds, a leap second iff the seconds field is 60. -/
+theorem reader_accepts_spec (s : List Nat) (f : Fields) (h : Rfc2822 s f) (hv : Valid f) :
+    ∃ z, Rfc2822.parse_from_rfc2822 s = .ok (.ok z) ∧ Denotes f z := by
+  obtain ⟨z, hz, hd⟩ := resolve_ok f hv
+  refine ⟨z, ?_, hd⟩
+  unfold Rfc2822.parse_from_rfc2822
+  rw [scanner_complete s f h (setterRanges_of_valid f hv)]
+  exact hz
+
+/-- the denotation determines the value: "exactly the denoted instant" -/
+theorem denotation_unique (f : Fields) (z z' : Zoned) (h : Denotes f z) (h' : Denotes f z') : z = z' := by
+  obtain ⟨a1, a2, a3, a4, _⟩ := h
+  obtain ⟨b1, b2, b3, b4, _⟩ := h'
+  have hu : z.utc = z'.utc :=
+    Chrono.Proofs.ndt_unique z.utc z'.utc ⟨((Chrono.Proofs.dateInv_iff _).mp a4.1).1, a4.2⟩
+      ⟨((Chrono.Proofs.dateInv_iff _).mp b4.1).1, b4.2⟩ (by rw [a2, b2]) (by rw [a3, b3])
+  cases z; cases z'
+  simp only [] at hu a1 b1
+  rw [hu, a1, b1]
+
+/-! ## a contradicting day-name is rejected -/
+
+/-- **weekday_mismatch_rejected.**  A string of the grammar whose day-name is not the weekday of its
+date is rejected by value (`Err`, never a panic, never a value) — whatever the other fields are. -/
+theorem weekday_mismatch_rejected (s : List Nat) (f : Fields) (h : Rfc2822 s f) (hr : SetterRanges f)
+    (w : Weekday) (hw : f.weekday = some w)
+    (hne : (w.toNat : Int) ≠ weekdayOf (dayNum f.year f.month f.day)) :
+    ∃ e, Rfc2822.parse_from_rfc2822 s = .ok (.error e) := by
+  have hm : f.month ≤ 12 ∧ 0 ≤ f.year := by
+    obtain ⟨_, _, _, _, _, _, _, yy, _, _, _, _, _, _, _, _, _, _, _, _, _, _, _, _, hmn, _, _, _, hyv, _⟩ := h
+    obtain ⟨i, hi, _, hmi⟩ := hmn
+    have := yearOf_ge yy
+    omega
+  have hp := inType_parsedOf f hr hm.1 (by omega)
+  obtain ⟨e, he⟩ := resolve_weekday_mismatch f hp w hw hne
+  refine ⟨e, ?_⟩
+  unfold Rfc2822.parse_from_rfc2822
+  rw [scanner_complete s f h hr]
+  exact he
+
+/-! ## the year rule -/
+
+/-- **year_rule.**  What a year of 2, 3 or more digits denotes: 00–49 → 2000–2049, 50–99 → 1950–1999,
+three digits → 1900 + value, four or more digits (leading zeros included) → the value itself.
+(`reader_accepts_spec` returns the value whose year is `yearOf` of the year digits.) -/
+theorem year_rule (yy : List Nat) (hd : Digits yy) :
+    (yy.length = 2 → decVal yy ≤ 49 → yearOf yy = 2000 + decVal yy) ∧
+    (yy.length = 2 → 50 ≤ decVal yy → yearOf yy = 1900 + decVal yy ∧ decVal yy ≤ 99) ∧
+    (yy.length = 3 → yearOf yy = 1900 + decVal yy) ∧
+    (4 ≤ yy.length → yearOf yy = decVal yy) := by
+  unfold yearOf
+  refine ⟨fun h2 h49 => ?_, fun h2 h50 => ?_, fun h3 => ?_, fun h4 => ?_⟩
+  · rw [if_pos h2, if_pos h49]; omega
+  · have := decVal_two yy hd h2
+    rw [if_pos h2, if_neg (by omega)]; omega
+  · rw [if_neg (by omega), if_pos h3]; omega
+  · rw [if_neg (by omega), if_neg (by omega)]
+
+/-! ## zones -/
+
+/-- **zone_names.**  `timezone_offset_2822` reads every zone of the specification — `±HHMM` with
+MM < 60, UT, GMT, EST…PDT in any letter case, any single letter but J (as +0000) — consumes exactly
+the zone and returns its offset, whatever follows (nothing, white space, a comment). -/
+theorem zone_names (zz : List Nat) (off : Int) (h : Zone zz off) (rest : List Nat) (hr : NoAlphaHead rest) :
+    Scan.timezone_offset_2822 (zz ++ rest) = .ok (rest, off) := (tz_spec h rest hr).1
+
+/-- the zone table of the specification is the table of RFC 2822 §4.3 as the code's `if` chain reads
+it, and the name tables extracted from the source are the specification's -/
+theorem tables_ok :
+    (∀ e ∈ zoneTable, zoneSecs e.1 = some (e.2 * 3600)) ∧
+    Extracted.SHORT_WEEKDAYS = dayNames ∧ Extracted.SHORT_MONTHS = monthNames := by
+  refine ⟨fun e he => (zone_table_secs e he).1, name_tables.1, name_tables.2.1⟩
+
+
+/-! ## non-vacuity: concrete strings of the grammar with valid fields -/
+
+/-- `Tue, 1 Jul 2003 10:52:37 +0200` (the rustdoc example of `to_rfc2822`) -/
+def exStd : List Nat :=
+  [84, 117, 101, 44, 32, 49, 32, 74, 117, 108, 32, 50, 48, 48, 51, 32, 49, 48, 58, 53, 50, 58, 51, 55, 32,
+   43, 48, 50, 48, 48]
+def exStdFields : Fields := ⟨some .tue, 1, 7, 2003, 10, 52, some 37, 7200⟩
+
+/-- an obsolete form: no day-name, two-digit year, no seconds, runs of white space (TAB, U+00A0,
+U+3000), a zone name in mixed case, a nested comment with escapes:
+`␠1␉jUL␠␠03 10 : 52 eSt (a(b\)) c\\)` -/
+def exObs : List Nat :=
+  [32, 49, 9, 106, 85, 76, 32, 32, 48, 51, 194, 160, 49, 48, 32, 58, 227, 128, 128, 53, 50, 32, 101, 83, 116,
+   32, 40, 97, 40, 98, 92, 41, 41, 32, 99, 92, 92, 41]
+def exObsFields : Fields := ⟨none, 1, 7, 2003, 10, 52, none, -18000⟩
+
+theorem ws_sp : Ws [32] := Ws.cons [32] [] (by decide) Ws.nil
+theorem ws1_sp : Ws1 [32] := ⟨[32], [], by decide, Ws.nil, rfl⟩
+
+example : Rfc2822 exStd exStdFields ∧ Valid exStdFields := by
+  refine ⟨⟨[], [84, 117, 101, 44], [32], [49], [32], [74, 117, 108], [32], [50, 48, 48, 51], [32], [49, 48], [],
+    [], [53, 50], [58, 51, 55], [32], [43, 48, 50, 48, 48], [],
+    Ws.nil, Or.inr ⟨1, [84, 117, 101], by decide, by decide, rfl, rfl⟩, ws_sp, by decide, Or.inl rfl, by decide,
+    ws1_sp, ⟨6, by decide, by decide, rfl⟩, ws1_sp, by decide, by decide, by decide, ws1_sp,
+    by decide, rfl, by decide, Ws.nil, Ws.nil, by decide, rfl, by decide,
+    Or.inr ⟨[], [51, 55], Ws.nil, by decide, rfl, rfl, rfl⟩, ws1_sp,
+    Zone.num false 48 50 48 48 (by decide) (by decide) (by decide) (by decide), Comments.nil, rfl⟩, ?_⟩
+  unfold Valid
+  decide
+
+example : Rfc2822 exObs exObsFields ∧ Valid exObsFields := by
+  refine ⟨⟨[32], [], [], [49], [9], [106, 85, 76], [32, 32], [48, 51], [194, 160], [49, 48], [32],
+    [227, 128, 128], [53, 50], [], [32], [101, 83, 116], [32, 40, 97, 40, 98, 92, 41, 41, 32, 99, 92, 92, 41],
+    ws_sp, Or.inl ⟨rfl, rfl⟩, Ws.nil, by decide, Or.inl rfl, by decide,
+    ⟨[9], [], by decide, Ws.nil, rfl⟩, ⟨6, by decide, by decide, rfl⟩,
+    ⟨[32], [32], by decide, ws_sp, rfl⟩, by decide, by decide, by decide,
+    ⟨[194, 160], [], by decide, Ws.nil, rfl⟩,
+    by decide, rfl, by decide, ws_sp, Ws.cons [227, 128, 128] [] (by decide) Ws.nil, by decide, rfl, by decide,
+    Or.inl ⟨rfl, rfl⟩, ws1_sp, (show Zone [101, 83, 116] (-18000) from
+      (by decide : (-5 : Int) * 3600 = -18000) ▸ Zone.name [101, 83, 116] [101, 115, 116] (-5) (by decide) (by decide)),
+    Comments.cons [32] [97, 40, 98, 92, 41, 41, 32, 99, 92, 92] [] ws_sp
+      (CText.char 97 _ (by decide) (by decide) (by decide)
+        (CText.nest [98, 92, 41] [32, 99, 92, 92]
+          (CText.char 98 _ (by decide) (by decide) (by decide) (CText.esc 41 [] CText.nil))
+          (CText.char 32 _ (by decide) (by decide) (by decide)
+            (CText.char 99 _ (by decide) (by decide) (by decide) (CText.esc 92 [] CText.nil)))))
+      Comments.nil, rfl⟩, ?_⟩
+  unfold Valid
+  decide
+
+/-- a contradicting day-name: `Mon, 1 Jul 2003 …` (that day is a Tuesday) meets the hypotheses of
+`weekday_mismatch_rejected` -/
+example : SetterRanges { exStdFields with weekday := some .mon } ∧
+    ((Weekday.mon.toNat : Int) ≠ weekdayOf (dayNum 2003 7 1)) := by
+  unfold SetterRanges; decide
+
+/-- the year rule on concrete digit strings: `03` → 2003, `50` → 1950, `103` → 2003, `0654` → 654 -/
+example : yearOf [48, 51] = 2003 ∧ yearOf [53, 48] = 1950 ∧ yearOf [49, 48, 51] = 2003 ∧
+    yearOf [48, 54, 53, 52] = 654 ∧ yearOf [48, 50, 48, 50, 52] = 2024 := by decide
+
+/-- zones: `-0330`, `pDt`, the military letter `k`; `J` is no zone of the specification -/
+example : Zone [45, 48, 51, 51, 48] (-12600) ∧ Zone [112, 68, 116] (-25200) ∧ Zone [107] 0 :=
+  ⟨Zone.num true 48 51 51 48 (by decide) (by decide) (by decide) (by decide),
+   (by decide : (-7 : Int) * 3600 = -25200) ▸ Zone.name [112, 68, 116] [112, 100, 116] (-7) (by decide) (by decide),
+   Zone.military 107 (by decide) (by decide)⟩
 
 end Chrono.Props.C11
